@@ -65,6 +65,7 @@ retry:
 	if ctx.Err() != nil {
 		deadPipe := deadFn()
 		deadPipe.error.Store(&errs{error: ctx.Err()})
+		deadPipe.uncounted = true
 		v = deadPipe
 		p.cond.L.Unlock()
 		return v
@@ -109,7 +110,7 @@ func (p *pool) Store(v wire) {
 		p.list = append(p.list, v)
 		p.startTimerIfNeeded()
 		v.ResetTimer()
-	} else {
+	} else if dp, ok := v.(*pipe); !ok || !dp.uncounted {
 		p.size--
 		v.Close()
 	}
